@@ -40,10 +40,11 @@ type aggregate struct {
 	stats     map[string]int64
 	samples   []string
 	sampleN   int
+	distinct  map[string]map[string]struct{}
 }
 
 func newAggregate() *aggregate {
-	return &aggregate{sigs: map[string]struct{}{}, stats: map[string]int64{}, invalidBy: map[string]int64{}}
+	return &aggregate{sigs: map[string]struct{}{}, stats: map[string]int64{}, invalidBy: map[string]int64{}, distinct: map[string]map[string]struct{}{}}
 }
 
 func (a *aggregate) add(r *sim.Result, race bool) {
@@ -68,6 +69,12 @@ func (a *aggregate) add(r *sim.Result, race bool) {
 	}
 	for k, v := range r.Stats {
 		a.stats[k] += v
+	}
+	for k, v := range r.Distinct {
+		if a.distinct[k] == nil {
+			a.distinct[k] = map[string]struct{}{}
+		}
+		a.distinct[k][v] = struct{}{}
 	}
 }
 
@@ -125,6 +132,9 @@ func writeEvidence(prop string, cfg *propCfg, tier string, seed int64, a *aggreg
 		default:
 			cov[g] = groups[g]
 		}
+	}
+	for k, set := range a.distinct {
+		cov["distinct_"+k] = len(set)
 	}
 	if len(a.samples) == 0 {
 		cov["samples"] = []string{"(no non-trivial case was produced)"}
